@@ -90,3 +90,20 @@ Example c17_example :
   = [OCommand OLeave; ODone OLeave (DoneOk []); OCommand OScan; ODone OScan (DoneOk [11; 12]%Z);
      OCommand OForm; ODone OForm DoneCancelled].
 Proof. vm_compute. reflexivity. Qed.
+
+(* ---- the positive halves in one statement (proofs/EventsPos_proofs.v) ------------------------------------
+   command accepted, the wanted status event somewhere in the run (before or after the reply), every timeout either
+   before the reply or after the event, no cancellation: the operation completes successfully, and nothing is left *)
+Require Import BV.proofs.EventsPos_proofs.
+
+Theorem c17_accepted_and_event_completes : forall st k body, idle st -> k <> OScan ->
+  no_abort body -> accepted body -> matched k body -> timely k body ->
+  concat (snd (erun st (EStart k :: body))) = [OCommand k; ODone k (DoneOk [])].
+Proof. exact accepted_and_event_completes. Qed.
+
+Theorem c17_scan_completes_with_results : forall st pre nj mid l1 l2, idle st ->
+  (forall l, In l pre -> no_complete l) -> (forall l, In l mid -> no_complete l) -> no_complete l1 ->
+  concat (snd (erun st (EStart OScan :: map ECallbacks pre ++ EReply true nj :: map ECallbacks mid
+                        ++ [ECallbacks (l1 ++ CComplete true :: l2)])))
+  = [OCommand OScan; ODone OScan (DoneOk (items_of (concat pre ++ concat mid ++ l1 ++ l2)))].
+Proof. exact scan_completes_with_results. Qed.
